@@ -31,7 +31,7 @@ def main():
     work = os.path.join(vlib.WORK, "selftest-%d" % os.getpid())
     os.makedirs(work, exist_ok=True)
     try:
-        binary = vlib.build_harness("full")
+        binary = vlib.build_harness("full", work)
         # ---- (a) corrupted events
         def corrupt(driver, n, idx, mutate, trace):
             ev = os.path.join(work, driver + ".events")
